@@ -154,6 +154,61 @@ func init() {
 		})
 		return "lib=" + lib + " node=" + node
 	}
+	// C16.utxos <txid:vout:sats:script|...>: a list of UTXOs through both dialects, every field of every element
+	executors["C16.utxos"] = func(a []string) string {
+		var us bt.UTXOs
+		if a[0] != "-" {
+			for _, d := range strings.Split(a[0], "|") {
+				f := strings.Split(d, ":")
+				x := f[3]
+				if x == "e" {
+					x = ""
+				}
+				us = append(us, &bt.UTXO{TxID: mustHex(f[0]), Vout: uint32(mustU(f[1], 32)), Satoshis: mustU(f[2], 64), LockingScript: scr(mustHex(x))})
+			}
+		}
+		show := func(l bt.UTXOs) string {
+			var out []string
+			for _, u := range l {
+				if u == nil {
+					out = append(out, "nil")
+					continue
+				}
+				sc := optHex(u.LockingScript)
+				if sc == "" {
+					sc = "e"
+				}
+				out = append(out, fmt.Sprintf("%s:%d:%d:%s", hex.EncodeToString(u.TxID), u.Vout, u.Satoshis, sc))
+			}
+			if len(out) == 0 {
+				return "-"
+			}
+			return strings.Join(out, "|")
+		}
+		lib := q(func() string {
+			js, err := json.Marshal(us)
+			if err != nil {
+				return "err"
+			}
+			var u2 bt.UTXOs
+			if err := json.Unmarshal(js, &u2); err != nil {
+				return "err"
+			}
+			return show(u2)
+		})
+		node := q(func() string {
+			js, err := json.Marshal(us.NodeJSON())
+			if err != nil {
+				return "err"
+			}
+			var u2 bt.UTXOs
+			if err := json.Unmarshal(js, u2.NodeJSON()); err != nil {
+				return "err"
+			}
+			return show(u2)
+		})
+		return "lib=" + lib + " node=" + node
+	}
 	generators["C16"] = genC16
 }
 
@@ -241,6 +296,23 @@ func genC16(e *emitter, tier string, seed uint64) {
 		e.run("C16.out", "1234", sc)
 		e.run("C16.utxo", "1234", sc)
 		e.note("script.awkward-asm")
+	}
+	// lists of UTXOs (0..5 elements, all different) through both dialects
+	for k := 0; k < 40; k++ {
+		var ds []string
+		for j := r.n(6); j > 0; j-- {
+			sc := hex.EncodeToString(tmplP2PKH(r))
+			if r.chance(30) {
+				sc = hex.EncodeToString(r.bytes(1 + r.n(30)))
+			}
+			ds = append(ds, fmt.Sprintf("%s:%d:%d:%s", hex.EncodeToString(r.bytes(32)), r.n(1000), r.u64()%2100000000000001, sc))
+		}
+		l := "-"
+		if len(ds) > 0 {
+			l = strings.Join(ds, "|")
+		}
+		e.run("C16.utxos", l)
+		e.note(fmt.Sprintf("utxo-list.%d", len(ds)))
 	}
 	// data scripts made of short pushes (rendered as numbers in the node dialect's asm), every pair of lengths 0..5,
 	// each followed by more script: marshalling must leave the object as it was and the round trip must return it
